@@ -146,6 +146,8 @@ func (s *Swarm) onPeerOnline(peer *Peer) {
 
 // Occurs when a peer is garbage collected.
 func (s *Swarm) onPeerOffline(name mesh.PeerName) {
+	s.Lock()
+	defer s.Unlock()
 	if peer, deleted := s.members.Remove(name); deleted {
 		logging.LogTarget("swarm", "unreachable peer removed", peer.name)
 		peer.Close() // Close the peer on our end
@@ -283,8 +285,13 @@ func (s *Swarm) merge(buf []byte) (mesh.GossipData, error) {
 		return nil, err
 	}
 
-	// Remember which of the incoming subscriptions we currently consider active
+	// The mesh calls us from one goroutine per connection. Deciding what a merge has
+	// changed spans several steps, which must not interleave with another merge.
 	verifyield.Point("cluster.Swarm.merge:entry")
+	s.Lock()
+	defer s.Unlock()
+
+	// Remember which of the incoming subscriptions we currently consider active
 	active := make(map[string]bool)
 	other.Subscriptions(func(ev *event.Subscription, _ event.Value) {
 		active[ev.Key()] = s.state.Has(ev)
